@@ -216,9 +216,15 @@ def check_L11(ctx, rep):
                          name, 'iter::once' if via == 'once' else 'an Option',
                          'nothing' if want == 'option' else 'exactly one value'), loc=cr.loc(tail))
     # sum folds with Iterator::sum
-    if not any('Iterator::sum' in x for x in names(fns['sum'])):
-        raise Broken('aggregators::sum: Iterator::sum not found')
-    rep.inst('L11.polarity', 'sum: Iterator::sum')
+    sum_names = names(fns['sum'])
+    folds_add = any(x.endswith(('Iterator::reduce', 'Iterator::fold')) for x in sum_names) and \
+        any(n_.get('k') in ('binary', 'assignop') and n_.get('op') in ('+', '+=') for n_, _ in walk(fns['sum']['tree']))
+    if any('Iterator::sum' in x for x in sum_names):
+        rep.inst('L11.polarity', 'sum: Iterator::sum')
+    elif folds_add:
+        rep.inst('L11.polarity', 'sum: fold / reduce with +')
+    elif not rep.violations:
+        raise Broken('aggregators::sum: neither Iterator::sum nor a fold / reduce with + found')
 
     # count: a size_hint shortcut is only taken when lower == upper
     b = fns['count']
